@@ -103,6 +103,29 @@ def run(tier: str, seed: int) -> int:
             run_.traces += 1
             if run_.traces % 40 == 0:
                 jax.clear_caches()          # thousands of distinct compiled scans otherwise exhaust the process's memory maps (LLVM: cannot allocate memory)
+    # ---- weakly damped forced mode and a tiny step (|sigma dt| ~ 1e-9): the coefficient dt phi_1(sigma dt) through which the forcing enters
+    # must keep full relative accuracy where a closed-form (exp(z) - 1)/z has lost half its digits; every order
+    for st in sts:
+        kind, D, N, km, nsteps = st["kind"], st["D"], st["N"], st["kmode"], st["n"]
+        if km != 1 or nsteps not in (1, 3) or N not in ((8, 9) if D == 2 else (6,)):
+            continue
+        wfac = 0 if kind == "velocity3d" else 1
+        L, gamma, nu, drag, dt = 2 * np.pi, 1.0, 0.01, 0.0, 1e-7
+        sigma = drag - nu
+        want = laminar_field(D, N, st["forcing"], wfac, 1.0, gamma, growth(sigma, nsteps * dt))
+        names = ["KolmogorovFlowVelocity"] if kind == "velocity3d" else ["KolmogorovFlowVorticity", "GeneralVorticityConvectionStepper"]
+        for name in names:
+            kw = dict(linear_coefficients=(drag / 2, 0.0, nu), injection_mode=km, injection_scale=gamma) if name.startswith("General") else \
+                dict(diffusivity=nu, drag=drag, injection_mode=km, injection_scale=gamma)
+            for order in (1, 2, 3, 4):
+                run_.case(("laminar-tiny", name, N, nsteps, order))
+                s = registry.make(name, D, N, L=L, dt=dt, order=order, **kw)
+                u = np.asarray(ex.repeat(s, nsteps)(jnp.zeros((s.num_channels,) + (N,) * D)))
+                err, scale = maxabs(u - want), maxabs(want)
+                if not err <= 1e-11 * scale:
+                    run_.violation({"kind": "laminar", "cls": name, "D": D, "order": order, "regime": "tiny |sigma dt|"},
+                                   {"N": N, "steps": nsteps, "dt": dt, "sigma": sigma, "rel_err": err / scale})
+    jax.clear_caches()
     # ForcedStepper: zero forcing == unforced, forcing f == unforced step of u + dt f (physical and Fourier entry points)
     for c in zoo.cases(tier, orders=(2,), all_variants=False):
         if tier == "quick" and c["D"] != registry.dims_of(c["name"])[0]:
